@@ -130,11 +130,57 @@ def replay_once(binary, path, env_extra=None):
         if racedir:
             shutil.rmtree(racedir, ignore_errors=True)
 
+MODULE = "github.com/0chain/common"
+
+def crash_signature(text):
+    """A Go process that died of a fatal error or an unrecovered panic: returns (class, frame) when the first
+    frame of the running goroutine outside the Go runtime / standard library belongs to the code under test,
+    None when it does not (then the harness itself is at fault, or the text is no crash report)."""
+    lines = text.splitlines()
+    kind = None
+    for i, l in enumerate(lines):
+        if l.startswith("fatal error: "):
+            kind = "fatal:" + l[len("fatal error: "):].strip()
+        elif l.startswith("panic: "):
+            kind = "panic:" + l[len("panic: "):].strip()[:120]
+        if kind:
+            break
+    if not kind:
+        return None
+    start = None
+    for j in range(i, len(lines)):
+        if lines[j].startswith("goroutine ") and "[running" in lines[j]:
+            start = j + 1
+            break
+    if start is None:
+        return None
+    for l in lines[start:]:
+        if not l.strip():
+            break
+        if l.startswith("\t") or l.startswith("created by "):
+            continue
+        fn = l.split("(")[0].strip()
+        first = fn.split("/")[0]
+        if fn.startswith(MODULE):
+            return kind, fn
+        if fn.startswith("verif/") or fn.startswith("main."):
+            return None
+        if "." in first and "/" in fn and not fn.startswith(MODULE):
+            # third-party module (zap, lru, ...): keep looking for who called it
+            continue
+        # runtime / standard library frame: keep looking
+    return None
+
 def _replay_once(binary, path, env):
     try:
         p = subprocess.run([binary, "-replay", path], env=env, stdout=subprocess.PIPE, stderr=subprocess.PIPE, text=True, timeout=600)
     except subprocess.TimeoutExpired:
         return 2, {}
+    if p.returncode == 2:
+        sig = crash_signature(p.stderr)
+        if sig:
+            # the process executing the script died inside the code under test
+            return 1, {"violation": {"oracle": "crash", "class": sig[0], "detail": "process died in %s" % sig[1]}, "crashed": True}
     info = {}
     for line in p.stdout.splitlines():
         line = line.strip()
@@ -161,6 +207,7 @@ def fan_out(binary, pid, tier, seed, runs_total, budget_s, known_keys, replay_di
             cmd += ["-known", ",".join(known_keys)]
         if digests:
             cmd.append("-digests")
+        cmd += ["-cur", os.path.join(tmp, "w%d.cur" % w)]
         cmd += (extra_args or [])
         log = open(os.path.join(tmp, "w%d.log" % w), "w")
         procs.append((subprocess.Popen(cmd, env=env, stdout=log, stderr=subprocess.STDOUT), out, log))
@@ -177,14 +224,61 @@ def fan_out(binary, pid, tier, seed, runs_total, budget_s, known_keys, replay_di
             die("watchdog: worker did not finish within its budget (+ grace)")
         log.close()
         if rc != 0 or not os.path.exists(out):
-            txt = open(log.name).read()[-4000:]
+            full = open(log.name).read()
             for q, _, _ in procs:
                 q.kill()
+            r = None
+            try:
+                idx = int(open(log.name[:-4] + ".cur").read().strip() or "-1")
+            except Exception:
+                idx = -1
+            if rc == 2 and idx >= 0 and crash_signature(full):
+                r = crash_triage(binary, pid, tier, seed, idx, known_keys, replay_dir, env, extra_args, tmp)
             shutil.rmtree(tmp, ignore_errors=True)
-            die("worker exited with %s:\n%s" % (rc, txt))
+            if r is None:
+                die("worker exited with %s:\n%s" % (rc, full[:1500] + "\n...\n" + full[-1500:]))
+            return [r], time.time() - t0
         results.append(json.load(open(out)))
     shutil.rmtree(tmp, ignore_errors=True)
     return results, time.time() - t0
+
+def crash_triage(binary, pid, tier, seed, idx, known_keys, replay_dir, env, extra_args, tmp):
+    """A worker process died while executing run idx, inside the code under test. Execute that run alone:
+    an ordinary violation is reported as such; if the process dies again the script itself is the replay file
+    of a 'crash' violation. Returns a worker result, or None if the death does not reproduce."""
+    out = os.path.join(tmp, "triage.json")
+    base = [binary, "-prop", pid, "-seed", str(seed), "-from", str(idx), "-tier", tier, "-replaydir", replay_dir] + (extra_args or [])
+    cmd = base + ["-count", "1", "-shrink", "0", "-budget", "600s", "-out", out]
+    if known_keys:
+        cmd += ["-known", ",".join(known_keys)]
+    for attempt in range(3):
+        if os.path.exists(out):
+            os.remove(out)
+        try:
+            p = subprocess.run(cmd, env=env, stdout=subprocess.PIPE, stderr=subprocess.STDOUT, text=True, timeout=900)
+        except subprocess.TimeoutExpired:
+            return None
+        if p.returncode == 0 and os.path.exists(out):
+            r = json.load(open(out))
+            if r.get("violations"):
+                return r
+            continue
+        sig = crash_signature(p.stdout) if p.returncode == 2 else None
+        if not sig:
+            return None
+        bname = "plain"
+        if extra_args and "-build" in extra_args:
+            bname = extra_args[extra_args.index("-build") + 1]
+        tag = "" if bname == "plain" else "-" + bname
+        path = os.path.join(replay_dir, "%s-%d-%d%s-crash.json" % (pid, seed, idx, tag))
+        pe = subprocess.run(base + ["-emit", path, "-emitclass", sig[0]], env=env, stdout=subprocess.PIPE, stderr=subprocess.STDOUT, text=True, timeout=300)
+        if pe.returncode != 0 or not os.path.exists(path):
+            return None
+        rp = json.load(open(path))
+        return dict(property=pid, seed=seed, runs=1, nontrivial=1, stats={"violation.crash|" + sig[0]: 1}, script_digests=[], state_digests=[],
+                    samples=[], recheck=0, recheck_diff=0, stopped_by="process-died", wall_s=0,
+                    violations=[dict(run_index=idx, run_seed=0, violation=rp["violation"], replay_path=path, shrink_execs=0, orig_len=0, min_len=0, build=bname)])
+    return None
 
 def merge(results):
     m = dict(runs=0, nontrivial=0, stats={}, scripts=set(), states=set(), samples=[], violations=[], recheck=0, recheck_diff=0, stopped_by=set(), log_digests={})
@@ -246,6 +340,7 @@ def check(pid, tier, seed):
     merged_all = None
     wall_runs = 0.0
     per_build = {}
+    nondet = []
     for name, b in binaries:
         runs = tcfg["runs"] if name != "race" else tcfg.get("race_runs", tcfg["runs"] // 4)
         env_extra = dict(cfg.get("env") or {})
@@ -263,7 +358,7 @@ def check(pid, tier, seed):
         m = merge(results)
         per_build[name] = dict(runs=m["runs"], wall_s=round(wall, 2))
         if m["recheck_diff"] > 0:
-            die("non-determinism: %d of %d in-process re-executions produced a different event log" % (m["recheck_diff"], m["recheck"]))
+            nondet.append("%d of %d in-process re-executions (%s build) produced a different event log" % (m["recheck_diff"], m["recheck"], name))
         if merged_all is None:
             merged_all = m
         else:
@@ -296,6 +391,13 @@ def check(pid, tier, seed):
         if not ok:
             die("replay of %s did not reproduce the violation (rc=%s, got %s)" % (v["replay_path"], rc, json.dumps(info)))
         violations.append(v)
+    if nondet and not violations:
+        # runs that are not a function of their script, and no violation that replays: the harness cannot be trusted here
+        die("non-determinism: " + "; ".join(nondet))
+    for n in nondet:
+        # with violations that did reproduce in fresh processes the divergence is the code under test not being a
+        # function of the script (Go map order deciding the order of its effects, say); reported next to them
+        print("NOTE: " + n)
 
     wall = time.time() - t0
     known_hit = {k: v for k, v in m["stats"].items() if k.startswith("known.")}
